@@ -27,8 +27,8 @@ vars == <<file, plug, res, hs, pend, nsent, parsing, hist>>
 
 Pick(core, quick, full) == IF Level = "core" THEN core ELSE IF Level = "quick" THEN core \cup quick ELSE core \cup quick \cup full
 
-AOpen    == Pick({"ok", "ok_onepass", "badjson"}, {"ok_nocollect", "missingfile", "ok_plugins"},
-                 ((OpenOkArgs \ HugeOpenArgs) \cup OpenBadArgs))
+AOpen    == Pick({"ok", "ok_onepass", "badjson"}, {"ok_nocollect", "missingfile", "ok_plugins", "zip_glob_none"},
+                 ((OpenOkArgs \ HugeOpenArgs) \cup OpenArchiveEmptyArgs \cup OpenBadArgs))
 APlain   == Pick({""}, {}, {"junk"})
 AStream  == Pick({"ok_filt", "ok_onepass", "badjson"}, {"ok", "badwindow"}, (StreamOkArgs \cup StreamBadArgs))
 AQuery   == Pick({"ok_filt"}, {"badjson", "ok_onepass"}, (StreamOkArgs \cup StreamBadArgs))
